@@ -147,6 +147,7 @@ def do_check(ctx, args, t0):
     results = runner.run_jobs(order, ctx.workdir, progress=progress)
     results.sort(key=lambda r: r.job.name)
     known = load_known()
+    tag_only = getattr(importlib.import_module('units'), 'TAG_ONLY', set())
     violations = []       # (JobResult, Obligation)
     known_seen = []
     n_obl = n_dis = 0
@@ -165,7 +166,7 @@ def do_check(ctx, args, t0):
             undecided.append('%s: %s' % (res.job.name, res.reason))
             continue
         for ob in res.obligations:
-            mine = ob.tags is None or prop in ob.tags
+            mine = (prop in ob.tags) if (ob.tags is not None or prop in tag_only) else True
             if not mine:
                 continue
             if res.job.kind == 'bounded':
